@@ -245,10 +245,19 @@ func (r *Run) Finish(minNontrivial int) {
 	if r.samples == nil {
 		cov["samples"] = []any{}
 	}
+	reserved := map[string]bool{"evaluations": true, "distinct_nontrivial": true, "rule": true, "samples": true,
+		"exhaustive": true, "inconclusive": true, "states": true, "transitions": true, "obligations": true,
+		"discharged": true, "programs": true, "explanation": true}
 	for k, v := range r.counters {
+		if reserved[k] {
+			k = "counter_" + k
+		}
 		cov[k] = v
 	}
 	for k, v := range r.extra {
+		if reserved[k] {
+			k = "extra_" + k
+		}
 		cov[k] = v
 	}
 	if r.exhaustive != nil {
